@@ -36,6 +36,9 @@ EXTRA = {
     # wave 6
     'C03-w62': ['C08'], 'C06-w61': ['C18'], 'C06-w62': ['C07'], 'C06-w63': ['C12'], 'C08-w61': ['C09'], 'C08-w62': ['C12'],
     'C08-w63': ['C07', 'C06'], 'C17-w63': ['C01'], 'C05-w62': ['C04'], 'C07-w62': ['C09'],
+    # wave 7
+    'C03-w72': ['C09'], 'C03-w73': ['C15'], 'C01-w71': ['C15'], 'C07-w71': ['C09'], 'C08-w71': ['C06', 'C18'], 'C08-w72': ['C06'],
+    'C06-w71': ['C12'], 'C13-w71': ['C14'], 'C02-w73': ['C01'],
 }
 
 
